@@ -95,7 +95,7 @@ pub fn c12_check_rate(cx: &mut Cx, m: &Mkt, prices: &Prices<T>, dur: u64, site: 
         }
     };
     let (rate_b, next_b) = (bi(rate), bs(next));
-    cx.m.nontrivial(
+    cx.nontrivial(
         format!("{TAG}|{adaptive}|{long}|{short}|{stored}|{dur}|{rate}|{lps}|{next}").as_bytes(),
     );
     if adaptive {
@@ -420,7 +420,7 @@ pub fn c09_boundary(w: &mut World, cx: &mut Cx, rng: &mut Rng) {
                 }
             }
         }
-        cx.m.nontrivial(format!("{TAG}|bc|{}|{}|{}|{lo}", p.size_in_usd, p.size_in_tokens, p.is_long).as_bytes());
+        cx.nontrivial(format!("{TAG}|bc|{}|{}|{}|{lo}", p.size_in_usd, p.size_in_tokens, p.is_long).as_bytes());
     } else {
         // --- bisection on the index price (adjacent flip of the verdict)
         let idx = u(prices.index_token_price.min);
@@ -468,7 +468,7 @@ pub fn c09_boundary(w: &mut World, cx: &mut Cx, rng: &mut Rng) {
                 try_liquidation(cx, &m, &p, &pr, expect, "boundary_price");
             }
         }
-        cx.m.nontrivial(format!("{TAG}|bp|{}|{}|{}|{lo}", p.size_in_usd, p.size_in_tokens, p.is_long).as_bytes());
+        cx.nontrivial(format!("{TAG}|bp|{}|{}|{}|{lo}", p.size_in_usd, p.size_in_tokens, p.is_long).as_bytes());
     }
 }
 
@@ -606,7 +606,7 @@ pub fn c10_roundtrip(w: &mut World, cx: &mut Cx, rng: &mut Rng) {
             });
             cx.violation(sig, || wv);
         }
-        cx.m.nontrivial(
+        cx.nontrivial(
             format!(
                 "{TAG}|{is_long}|{coll_long}|{collateral}|{size}|{:?}|{}|{}",
                 prices.index_token_price, w.world_idx, w.step
@@ -699,7 +699,7 @@ pub fn c11_probe(w: &mut World, cx: &mut Cx, rng: &mut Rng) {
                 cx.count("c11_capped_cases");
             }
             if r1.0 != 0 || r2.0 != 0 {
-                cx.m.nontrivial(
+                cx.nontrivial(
                     format!("{TAG}|{}|{}|{}|{partial}|{a_min}|{a_max}|{b_min}|{b_max}", p.is_long, p.size_in_usd, p.size_in_tokens)
                         .as_bytes(),
                 );
